@@ -257,6 +257,18 @@ func (o *obs) at(v *view, addr int) {
 		o.check("Uint64WithByteOrder", ord, addr, 4, u64, func() (any, error) { return r0.Uint64WithByteOrder(a, po) })
 		o.check("Int64WithByteOrder", ord, addr, 4, int64(u64), func() (any, error) { return r0.Int64WithByteOrder(a, po) })
 		o.check("Float64WithByteOrder", ord, addr, 4, math.Float64frombits(u64), func() (any, error) { return r0.Float64WithByteOrder(a, po) })
+		// an explicit order must not pick anything up from the view's default: same calls on the views with other defaults
+		for _, j := range []int{3, 5} { // views whose default is BE|LWF and LE|LWF
+			vj := v.regs[j]
+			effj := regref.Resolve(ord, regref.Orders[j])
+			x32 := uint32(regref.Uint(w2, effj))
+			x64 := regref.Uint(w4, effj)
+			o.check("Uint32WithByteOrder/other-default", ord, addr, 2, x32, func() (any, error) { return vj.Uint32WithByteOrder(a, po) })
+			o.check("Float64WithByteOrder/other-default", ord, addr, 4, math.Float64frombits(x64), func() (any, error) { return vj.Float64WithByteOrder(a, po) })
+			o.check("Int64WithByteOrder/other-default", ord, addr, 4, int64(x64), func() (any, error) { return vj.Int64WithByteOrder(a, po) })
+			o.check("DoubleRegister/other-default", ord, addr, 2, regref.Words(w2, ord), func() (any, error) { return vj.DoubleRegister(a, po) })
+			o.check("QuadRegister/other-default", ord, addr, 4, regref.Words(w4, ord), func() (any, error) { return vj.QuadRegister(a, po) })
+		}
 	}
 }
 
